@@ -1,7 +1,7 @@
 (* Sx front end of the codec model (C01, C02, C03, C10).  The group table and BeginString are
    the ones regenerated from /repo (AFGen.GenGroups). *)
 From Coq Require Import ZArith NArith List Bool.
-From AF Require Import Base.Sx Py.Str Fix.Codec.
+From AF Require Import Base.Sx Py.Str Fix.Codec Fix.ReaderHooks.
 From AFGen Require Import GenGroups.
 Import ListNotations.
 Open Scope Z_scope.
@@ -86,6 +86,17 @@ Definition run (req : sx) : sx :=
       match get_list get_str chunks with
       | Some cs =>
           let '(buf, out, sts) := reader_run table beginstring [] cs in
+          SL [sx_of_str buf; SL (map (fun p => SL [sx_message (fst p); sx_of_str (snd p)]) out);
+              SL (map sx_of_N sts)]
+      | None => err_sx 1
+      end
+  | SL [SI 6; chunks; SL failing] =>
+      (* the reader with a dispatcher that raises at the given (1-based) delivery numbers: Fix/ReaderHooks.v *)
+      match get_list get_str chunks with
+      | Some cs =>
+          let nums := flat_map (fun x => match x with SI z => [Z.to_nat z] | _ => [] end) failing in
+          let raises := fun i => existsb (Nat.eqb (S i)) nums in
+          let '(buf, out, sts) := reader_run_h raises table beginstring O [] cs in
           SL [sx_of_str buf; SL (map (fun p => SL [sx_message (fst p); sx_of_str (snd p)]) out);
               SL (map sx_of_N sts)]
       | None => err_sx 1
